@@ -5,6 +5,9 @@ VERIF = os.path.dirname(os.path.dirname(os.path.abspath(__file__)))
 
 # id -> (category, technique, text, note, design_ref)
 CHECKS = {
+    'C02': ('exploration', 'hostile-input monitoring of the real NL reader under ASan+UBSan with an online consistency checker as receiving handler, string path vs. file path differential',
+            'Valid NL models over all operators from our own text/binary/byte-swapped encoders, padded to page-multiple sizes, are mutated and read through ReadNLString and ReadNLFile with and without READ_BOUNDS_FIRST into a recording handler that asserts every index/count/nesting rule against the header it received, into NullNLHandler and into mp::Problem; sanitizer reports, unlocated exceptions, inconsistent notifications, string/file differences and misreported valid models are violations.',
+            'ASan/UBSan instrumentation; allocator-limit aborts for gigantic declared sizes are counted as resource exhaustion; our NL encoders define what a valid file is', '2/C02'),
     'C18': ('exploration', 'randomised differential monitoring: real mp::Equal / std::hash on factory-built trees vs. an independent shadow-tree oracle, under ASan',
             'Random expression trees over every expression kind are materialised twice through the real ExprFactory together with single-point mutants; Equal must agree with a structural comparison of the shadows (reflexive, symmetric, transitive, exact), equal trees must hash equally, and ASan/UBSan-bounds watch the comparison and hashing code.',
             'own shadow-tree comparison is the reference; UnsupportedError for symbolic numberof is a counted refusal', '2/C18'),
